@@ -5,6 +5,7 @@
 package verifmodels
 
 import (
+	"crypto"
 	"golang.org/x/crypto/sha3"
 	"time"
 	"crypto/aes"
@@ -553,4 +554,26 @@ func HKDFExtract(h func() hash.Hash, secret, salt []byte) ([]byte, error) {
 	m := HMACNew(h, salt)
 	m.Write(secret)
 	return m.Sum(nil), nil
+}
+
+// ---------------------------------------------------------------- crypto.Hash registry
+
+// CryptoHashNew models crypto.Hash.New (the registration table is filled by package
+// initialisers that the engine does not run).
+//
+//verif:intercept (crypto.Hash).New
+func CryptoHashNew(h crypto.Hash) hash.Hash {
+	switch h {
+	case crypto.SHA1:
+		return SHA1New()
+	case crypto.SHA224:
+		return SHA224New()
+	case crypto.SHA256:
+		return SHA256New()
+	case crypto.SHA384:
+		return SHA384New()
+	case crypto.SHA512:
+		return SHA512New()
+	}
+	panic("crypto: requested hash function is unavailable")
 }
